@@ -345,7 +345,13 @@ var nilExceptions = map[string]string{
 }
 
 func c20UseBeforeCheck(p *Program, r *Report) {
-	scope := []string{ctrlPkg, mwPkg, utilsPkg, "s3api", "auth", "backend", "backend/posix", "backend/meta", "backend/scoutfs", "backend/s3proxy", "s3event", "s3log"}
+	n := c20UseBeforeCheckScope(p, r, []string{ctrlPkg, mwPkg, utilsPkg, "s3api", "auth", "backend", "backend/posix", "backend/meta", "backend/scoutfs", "backend/s3proxy", "s3event", "s3log"})
+	if n < 100 {
+		broken("R-C20-3: only %d (*T, error) calls examined", n)
+	}
+}
+
+func c20UseBeforeCheckScope(p *Program, r *Report, scope []string) int {
 	n := 0
 	for _, f := range p.FuncsIn(scope...) {
 		for _, c := range callsIn(f) {
@@ -441,9 +447,7 @@ func c20UseBeforeCheck(p *Program, r *Report) {
 			r.Check(bad == "", "R-C20-3", key, p.Pos(call.Pos()), "result dereferenced only after the error/nil test", "the pointer result of "+calleeName(c)+" is dereferenced (at "+bad+") on a path where neither its error nor the pointer itself was tested: a failing call makes the gateway dereference nil and exit")
 		}
 	}
-	if n < 100 {
-		broken("R-C20-3: only %d (*T, error) calls examined", n)
-	}
+	return n
 }
 
 // requiredPtrFields: for posix backend method m, pointer fields of its input-struct parameters that are
